@@ -385,6 +385,7 @@ func main() {
 	sum.WriteCaseFile(cfg.Out, "cases_sched", "From SigM Require Import Base Handover HandoverCheck.\n", defs, "check_sched_cases cases", len(cases))
 	// the hooks stay installed (siglens background goroutines read them); without a marked writer / reader they do nothing
 	stress(cfg, sum)
+	concurrentFirstIngest(cfg, sum)
 	if os.Getenv("VERIF_RACE_CHILD") == "" {
 		raceStage(cfg, sum)
 	}
@@ -430,8 +431,17 @@ func raceFrame(block []string) (string, string) {
 var handoverFiles = map[string]bool{
 	"pkg/segment/writer/segstore.go": true, "pkg/segment/writer/segwriter.go": true, "pkg/segment/writer/unrotatedquery.go": true,
 	"pkg/segment/writer/segmetarw.go": true, "pkg/segment/writer/packer.go": true, "pkg/segment/writer/suffix/suffix.go": true,
-	"pkg/segment/metadata/metadata.go": true, "pkg/segment/query/segquery.go": true, "pkg/segment/query/queryrefresh.go": true,
-	"pkg/segment/query/metadata/segmetadata.go": true,
+	"pkg/segment/query/segquery.go": true, "pkg/segment/query/queryrefresh.go": true,
+}
+
+// pkg/segment/metadata/metadata.go holds the rotated list (judged: the functions below) next to the lazy loading of
+// search metadata, which races on the unchanged tree (loadParallelSsm, seen in 1 of 27 runs) and is not judged.
+var handoverFuncs = map[string]bool{
+	"pkg/segment/metadata.BulkAddSegmentMicroIndex": true, "pkg/segment/metadata.AddSegMetaToMetadata": true,
+	"pkg/segment/metadata.(*allSegmentMetadata).bulkAddSegmentMicroIndex": true,
+	"pkg/segment/metadata.(*allSegmentMetadata).deleteSegmentKey": true, "pkg/segment/metadata.(*allSegmentMetadata).deleteSegmentKeyWithLock": true,
+	"pkg/segment/metadata.(*allSegmentMetadata).deleteTable": true, "pkg/segment/metadata.DeleteSegmentKey": true,
+	"pkg/segment/metadata.DeleteVirtualTable": true, "pkg/segment/metadata.GetAllSegmentMicroIndex": true,
 }
 
 // one entry per distinct (writer functions, other function) combination
@@ -555,7 +565,7 @@ func raceStage(cfg vhlib.Config, sum *vhlib.Summary) {
 		sum.Eval("race/"+k, true)
 		w := ""
 		for i, x := range r.Writers {
-			if handoverFiles[r.WFiles[i]] {
+			if handoverFiles[r.WFiles[i]] || handoverFuncs[x] {
 				w = x
 				break
 			}
@@ -705,4 +715,68 @@ func schedCoq(s string) string {
 		}
 	}
 	return vhlib.CoqList(it)
+}
+
+// ---------- several ingesters start on the SAME new index at the same moment ----------
+// "once activity stops the stored contents equal what a sequential execution of the same ingests would give":
+// K goroutines are released together, each sends its own ids to an index nobody has written to yet; after they
+// return and a flush, every acknowledged id must be searchable exactly once, also after a rotation.
+func concurrentFirstIngest(cfg vhlib.Config, sum *vhlib.Summary) {
+	rounds, K, per := 10, 6, 5
+	if cfg.Thorough() {
+		rounds, K, per = 60, 8, 5
+	}
+	for r := 0; r < rounds; r++ {
+		index := fmt.Sprintf("cf%d", r)
+		start := make(chan struct{})
+		var wg sync.WaitGroup
+		for g := 0; g < K; g++ {
+			wg.Add(1)
+			go func(g int) {
+				defer wg.Done()
+				<-start
+				ingest(index, 1+g*per, per)
+			}(g)
+		}
+		// starting gate: while the segstore table is write-locked every ingester blocks in its lookup of the (new)
+		// stream; on release they all look it up at the same moment
+		release := writer.VerifHoldAllSegStores()
+		close(start)
+		time.Sleep(60 * time.Millisecond)
+		release()
+		wg.Wait()
+		flushLogs()
+		check := func(stage string) {
+			ids, _, errs := runQuery(index, "*")
+			sum.Eval(fmt.Sprintf("firstingest/%d/%s", r, stage), true)
+			sum.Count("firstingest/" + stage)
+			c := map[string]interface{}{"index": index, "ingesters": K, "events_each": per, "stage": stage, "ids": ids}
+			if errs != "" {
+				sum.Fail("query_error_after_concurrent_first_ingest", errs, c)
+				return
+			}
+			have := map[int]int{}
+			for _, id := range ids {
+				have[id]++
+			}
+			missing, dup := 0, 0
+			for id := 1; id <= K*per; id++ {
+				if have[id] == 0 {
+					missing++
+				}
+				if have[id] > 1 {
+					dup++
+				}
+			}
+			if missing > 0 || dup > 0 || len(have) != K*per {
+				sum.Fail("acknowledged_events_lost_after_concurrent_first_ingest", fmt.Sprintf("%d ingesters x %d events into the new index %s at the same moment, %s: %d of %d ids missing, %d doubled (a sequential execution stores all of them once)",
+					K, per, index, stage, missing, K*per, dup), c)
+			}
+		}
+		check("after flush")
+		if r%3 == 2 {
+			writer.ForceRotateSegmentsForTest()
+			check("after rotation")
+		}
+	}
 }
